@@ -187,3 +187,17 @@ check(
     "Operands differing only in the pattern of index identities are excused (counted). Structural equality is UFL's ==, cross-checked by repr. PYTHONHASHSEED fixed by ./check.",
     "DESIGN.md 3 C29",
 )
+check(
+    "C12",
+    "fork-tree history exploration: per catalogue form the complete product of start values of every global creation counter it consumes (crossing 9->10, 99->100, 999->1000), reached by really creating throw-away objects in forked images; rebuild, sequential and fresh-interpreter (PYTHONHASHSEED) histories; differential oracle against the zero history",
+    "Bounded exhaustive history exploration on the real code. For each of 56 catalogue forms, the complete product of start values of the global creation counters the form consumes (Index, Coefficient/Cofunction, Constant, Label, Mesh ufl_id, Matrix, BaseFormOperator) over sets crossing every 9->10, 99->100 and 999->1000 boundary is reached by really creating throw-away objects in forked images of a pristine parent; each form is built in its own forked image and form.signature() must equal the zero-history signature. The same holds for rebuilding a form in one process, for building the whole catalogue sequentially, and for fresh interpreters under six PYTHONHASHSEED values. An in-process sweep over every start 0..130 (thorough 0..1100) is cross-checked against the forked histories and every mismatch is re-executed as a real history before it is reported.",
+    "Quantification is over the 56 catalogue forms and the stated start-value sets, not over all forms or all integers. Hash seeds are a fixed handful plus one derived from VERIF_SEED. MeshView is excluded (unusable in forms). Only Form.signature() is observed; explicit user-supplied counts/ufl_ids, Interpolate, complex mode and >= 3 counters at starts other than 9, 10, 99 are outside the bounds.",
+    "DESIGN.md 3 C12",
+)
+check(
+    "C20",
+    "fork-tree history exploration: one os.fork() per history node (type registration cannot be undone in-process); every history of register/use events up to length 3 (quick) / 5 (thorough) per algorithm entry and all two-class interleavings of 4 pairs; differential oracle against the canonical registrations-first history",
+    "Bounded exhaustive fork-tree exploration of registration/use histories. For each of 78 algorithm entries (40 discovered MultiFunction/Transformer/DAGTraverser subclasses, 7 synthetic downstream classes incl. lazily defined and same-named ones, 31 function entry points), every history over {register new operator, register subclass of Sin, register new terminal, use on an old expression, use on each new type} up to length 3 (quick) or 5 (thorough) is executed on the real code in its own forked process image; all two-class interleavings of 4 representative pairs up to length 3 / 4. Every use outcome (normalised result repr or exception type) must equal the outcome of the same event in the canonical history in which the registrations come first, no dispatch site may raise IndexError/AttributeError/KeyError on a typecode-indexed table, and for independent pairs the outcome must equal that of the projection onto one class.",
+    "Fresh algorithm instances per use (instances kept alive across a registration are outside the alphabet); three synthetic late types; results compared by normalised repr; the product over algorithm classes rests on a factoring argument (caches keyed by class object) that is itself tested on the pairs.",
+    "DESIGN.md 3 C20",
+)
